@@ -415,14 +415,14 @@ func (e *Engine) computeFold() {
 	}
 	gi := map[*ssa.Global]*info{}
 	for _, m := range p.Main.Members {
-		if g, ok := m.(*ssa.Global); ok {
+		if g, ok := m.(*ssa.Global); ok && !strings.HasPrefix(g.Name(), "zzCtl") {
 			if b, ok := deref(g.Type()).Underlying().(*types.Basic); ok && b.Info()&(types.IsBoolean|types.IsInteger) != 0 {
 				gi[g] = &info{}
 			}
 		}
 	}
 	for f := range p.All {
-		if !p.inModule(f) {
+		if !p.inModule(f) || isCtl(f) {
 			continue
 		}
 		for _, b := range f.Blocks {
